@@ -14,6 +14,14 @@ def unpack_trace_stage(tier):
                 timeout=3000)
 
 
+def corrupt_stage(prop, tier):
+    # structured corruption of TLC-generated archives: hostile encodings in every header field (checksum repaired),
+    # hostile PAX / GNU extension records spliced in, damaged tar and gzip framing (unpackmut.go)
+    return dict(name="corrupt", module="MC_Unpack", cfg="MC_Unpack_nv.cfg", family="unpack", judge=UNPACK_JUDGE, exhaustive=True,
+                overrides={"MaxLen": "2", "Alphabet": "<- AlphaFidelityQ" if tier == "quick" else "<- AlphaFidelity"},
+                vh_args=["-props", prop, "-gamma", "0", "-mode", "mutate"], timeout=3000)
+
+
 def unpack_stages(prop, tier, seed):
     st = unpack_stages_a(prop, tier, seed)
     if prop == "C04":
@@ -23,6 +31,8 @@ def unpack_stages(prop, tier, seed):
                            overrides={"MaxLen": "2", "Alphabet": "<- AlphaAllow", "Allow": "<- MCAllowW"},
                            vh_args=["-props", prop, "-gamma", "0,%d" % (seed * 3 + 1)] + extra, exhaustive=True))
     st.append(unpack_trace_stage(tier))
+    if prop == "C01" and tier != "quick":
+        st.append(corrupt_stage(prop, tier))
     return st
 
 
@@ -109,6 +119,7 @@ def pack_stages(prop, tier, seed):
             for s2 in st[1:]:
                 s2["vh_args"] = ["-props", "C19"]
             st.append(prep_stage("links", "links", "none", prop))
+            st.append(corrupt_stage(prop, tier))
         if not q:
             st.append(pack_stage("rt", "rt", "none", prop, seed))
             st.append(pack_stage("ign1", "ignore", "single", prop, seed))
@@ -171,8 +182,10 @@ def builder_stages(prop, tier, seed):
                                                      "Vers": "{1}", "AllowedSets": "<- MCAllowed1", "Adds": "<- MCAddsF", "MaxDeps": "2"})
     sched = builder_stage("sched", prop, seed, {"Callers": '{"c1", "c2"}', "MaxAdds": "1" if q else "2", "Adds": "<- MCAddsR", "RegPkgs": "{}",
                                                  "Concurrent": "TRUE", "MaxEdges": "2", "LocalRels": "<- MCLocalRels0"})
+    live = [dict(kind="design", name="live1", module="Live_Builder", cfg="Live_Builder.cfg", properties=["Terminates", "EachDrainEnds", "QueuesBounded"]),
+            dict(kind="design", name="live2", module="Live_Builder", cfg="Live_Builder2.cfg", properties=["Terminates", "EachDrainEnds", "QueuesBounded"])]
     if prop == "C14":
-        return [base, fan, sched, finders] if q else [base, fan, sched, finders, builder_stage("graph3", prop, seed, {"MaxEdges": "3", "Finders": '{"F1", "F2"}', "Adds": "<- MCAdds3", "Pkgs": '{"P1", "P2", "P3"}'}, sim={"num": 40000, "depth": 60}, workers=1)]
+        return [base, fan, sched, finders] if q else live + [base, fan, sched, finders, builder_stage("graph3", prop, seed, {"MaxEdges": "3", "Finders": '{"F1", "F2"}', "Adds": "<- MCAdds3", "Pkgs": '{"P1", "P2", "P3"}'}, sim={"num": 40000, "depth": 60}, workers=1)]
     if prop == "C08":
         return [base, coal, fan, finders] if q else [base, coal, fan, finders, vers]
     if prop == "C17":
@@ -395,6 +408,13 @@ def check(vc, prop, tier, seed, t0):
     flag_counts = {}
     try:
         for stage in P["stages"](prop, tier, seed):
+            if stage.get("kind") == "design":
+                stats = vc.run_design_stage(scratch, stage)
+                states += stats["distinct"]
+                transitions += stats["generated"]
+                stage_info.append(dict(stage=stage["name"], module=stage["module"], cfg=stage["cfg"], design_only=True,
+                                       properties=stage.get("properties"), tlc=stats))
+                continue
             if stage.get("kind") == "trace":
                 recs, stats = vc.run_trace_stage(vh, scratch, stage, seed)
                 acc = sum(1 for r in recs if r["accepted"])
